@@ -101,6 +101,14 @@ def bases(tier):
     for sh in gtree.shapes_upto(3):
         for deco in (1, 2):
             out.append((f"ns:{gtree.gsize(sh)}:{deco}", c07.decorate(sh, deco), 3))
+    # the same trees again with a shadowed registry (ids bound to a later clone, one id unregistered)
+    extra = []
+    for l, g, k in out:
+        if l.startswith(("min:dataset", "min:access", "special:0", "invalid:unknown", "ns:2:1", "rich:0")):
+            g2 = gtree.clone(g)
+            g2["shadow"] = True
+            extra.append((l + "+shadowed-registry", g2, 2))
+    out += extra
     if tier == "quick":
         out = [(l, g, min(k, 2)) for l, g, k in out]
     _BASES[tier] = out
@@ -115,6 +123,12 @@ class Ctx:
     def __init__(self, g):
         core.reset_store()
         self.root = gtree.build(g)
+        if g.get("shadow"):
+            # the registry does not point at this tree's nodes: a clone with the same ids was loaded afterwards, and one
+            # node was taken out of the registry; read-only operations must leave the registry exactly like that
+            self.clone = metapype_io.from_json(metapype_io.to_json(self.root))
+            last = gtree.preorder(self.clone)[-1]
+            Node.delete_node_instance(last.id, children=False)
         self.nodes = gtree.preorder(self.root)
         names = []
         for n in self.nodes:
